@@ -2,7 +2,7 @@
 import p_seqprops
 
 PROPS = ["C02"]
-PROFILES = [(3, {"n_setup": (4, 8), "script_prob": 0.4, "share_fd_prob": 0.0, "err_ret_prob": 0.02, "kinds": {"comp": 5, "ping": 2, "timer": 2, "chan": 2}}), (1, {})]
+PROFILES = [(3, {"n_setup": (4, 8), "script_prob": 0.4, "share_fd_prob": 0.0, "err_ret_prob": 0.02, "stop_prob": 0.08, "kinds": {"comp": 5, "ping": 2, "timer": 2, "chan": 2}}), (1, {})]
 
 
 def main(tier, seed):
